@@ -23,7 +23,7 @@ __all__ = [
     "Suppress", "NoSuppress", "cond", "call", "use", "ident", "first", "pair", "apply_fn",
     "T", "U", "TB", "TC", "Tr", "TrSub", "WithX", "Closer", "R0", "R1", "R2", "R3",
     "Any", "Callable", "Generic", "Optional", "Protocol", "TypeVar", "Union", "Boom",
-    "opaque_int", "opaque_str",
+    "opaque_int", "opaque_str", "tick", "it", "site", "Cut",
 ]
 
 
@@ -134,8 +134,9 @@ class Suppress:
     def __enter__(self) -> None:
         return None
 
-    def __exit__(self, *args: object) -> bool:
-        return True
+    def __exit__(self, typ: object = None, exc: object = None, tb: object = None) -> bool:
+        # declared as possibly suppressing; at run time only the vocabulary's Boom is swallowed
+        return isinstance(exc, Boom)
 
 
 class NoSuppress:
@@ -190,3 +191,37 @@ def pair(x: T, y: U) -> "tuple[T, U]":
 
 def apply_fn(f: "Callable[[T], U]", x: T) -> U:
     return f(x)
+
+
+class Cut(BaseException):
+    """Raised by tick() to cut `while True` loops during scripted execution."""
+
+
+_ticks = [0]
+
+
+def tick() -> None:
+    _ticks[0] += 1
+    if _ticks[0] > 3:
+        _cut[0] = True  # everything observed from here on is an artefact of the cut
+        raise Cut()
+
+
+def it() -> "list[int]":
+    """Opaque iterable of 0-2 elements (two script bits)."""
+    n = 0
+    if _script:
+        n += 1 if _script.pop(0) else 0
+    if _script:
+        n += 1 if _script.pop(0) else 0
+    return list(range(n))
+
+
+def site(x: object, n: int) -> None:
+    """use() with a site id, for the reaching-definitions harness."""
+    if not _cut[0]:
+        _trace.append((n, x))
+
+
+_trace = []
+_cut = [False]
